@@ -45,6 +45,7 @@ class EngineProbe:
         self.max_records = max_records
         self.overflow = False
         self.on_invoke = None     # optional callback(event, eid) for spin guards
+        self._cur = None          # event whose top-level invoke is in progress
 
     def eid(self, ev) -> int:
         k = id(ev)
@@ -94,6 +95,7 @@ class EngineProbe:
             def invoke(self):
                 if probe._depth == 0:
                     e = probe.eid(self)
+                    probe._cur = self
                     if getattr(self.target, "_crashed", False) and orig is o["ev_invoke"]:
                         probe.log.append(["k", e])
                     else:
@@ -152,7 +154,12 @@ class EngineProbe:
         e = len(self._keep) + 1
         self._ids[k] = e
         self._keep.append(ev)
-        self.log.append(["c", e, _ns(ev.time), bool(ev.daemon)])
+        rec = ["c", e, _ns(ev.time), bool(ev.daemon)]
+        if isinstance(ev, ProcessContinuation) and self._cur is not None and self._depth > 0:
+            # a continuation belongs to the process started by / continued from the current event:
+            # record that event's daemon flag (the process inherits it)
+            rec.append(bool(self._cur.daemon))
+        self.log.append(rec)
 
     def event(self, e: int):
         return self._keep[e - 1]
